@@ -771,3 +771,92 @@ MUTANTS.append({"name": "content-drops-falsy-modifiers", "file": CONF, "old": " 
                 "new": "            str(key): value for key, value in self._ratemodifier.items() if value\n", "rules": ["R10"]})
 BENIGN.append({"name": "content-tables-copied", "file": CONF, "old": '        chem_species["photon_yield"] = self._photonyield\n',
                "new": '        chem_species["photon_yield"] = dict(self._photonyield)\n'})
+
+# ---- spellings accepted since the round-5 benign sets (each also as a seeded defect written in the new spelling) ----
+_WR_TAIL_OLD = ('                    f"{self.alpha:10.3e}",\n                    f"{self.beta:10.3e}",\n                    f"{self.gamma:10.3e}",\n                    f"{self.temp_min:9.2f}",\n'
+                '                    f"{self.temp_max:9.2f}",\n                    f"{self.reaction_type:>4}",\n                    f"{self.source:>8}",\n')
+_CLS_FMT = '    format = "naunet"\n'
+
+
+def _wr_layout(second, third):
+    """the trailing columns formatted by a helper method from a class-level (attribute, spec) layout"""
+    return [{"file": RFILE, "old": _WR_TAIL_OLD, "new": '                    *self._columns(self._TAIL_LAYOUT),\n'},
+            {"file": RFILE, "old": _CLS_FMT, "new": _CLS_FMT + '\n    _TAIL_LAYOUT = (("alpha", "10.3e"), ("' + second + '", "10.3e"), ("' + third + '", "10.3e"), ("temp_min", "9.2f"), ("temp_max", "9.2f"),\n'
+             '                    ("reaction_type", ">4"), ("source", ">8"))\n\n    def _columns(self, layout):\n        return [format(getattr(self, attr), spec) for attr, spec in layout]\n'}]
+
+
+_RD_FLOATS_OLD = ('        self.alpha = float(a)\n        self.beta = float(b)\n        self.gamma = float(c)\n        self.temp_min = float(lt)\n        self.temp_max = float(ut)\n')
+
+
+def _rd_setattr(names):
+    return ('        columns = zip(' + names + ', (a, b, c, lt, ut))\n        for attrname, text in columns:\n            setattr(self, attrname, float(text))\n')
+
+
+def _rd_sliced(strip, hi):
+    """all species columns cleaned first, then cut into reactants / products"""
+    return ('        names = [name' + strip + ' for name in rps]\n        rcols, pcols = names[0:3], names[3:' + hi + ']\n'
+            '        self.reactants = [self._create_species(r) for r in rcols if self._create_species(r)]\n'
+            '        self.products = [self._create_species(p) for p in pcols if self._create_species(p)]\n')
+
+
+_NW_OLD = ('                if format == "krome":\n                    self._rateconverter.read(\n                        reac.rateexpr(grain_dict.get(reac.grain_group))\n                    )\n'
+           '                    outf.write(f",{self._rateconverter:fortran}\\n")\n\n                else:\n                    outf.write(f"\\n")\n')
+_NW_DEF = '    def write(self, filename: str | Path, format: str = "") -> None:\n'
+
+
+def _nw_ending(nl):
+    return [{"file": NET, "old": _NW_OLD, "new": '                ending = self._rate_column(reac, grain_dict) if format == "krome" else ""\n                outf.write(ending' + nl + ')\n'},
+            {"file": NET, "old": _NW_DEF, "new": '    def _rate_column(self, reac, grain_dict):\n        self._rateconverter.read(reac.rateexpr(grain_dict.get(reac.grain_group)))\n'
+             '        return f",{self._rateconverter:fortran}"\n\n' + _NW_DEF}]
+
+
+_EX_OLD = ('        reaction_file = path / "reactions.naunet"\n        if os.path.exists(reaction_file) and not overwrite:\n            logger.warning("Reaction file exists! Stop exporting!")\n'
+           '            return\n\n        self.write(reaction_file, "naunet")\n')
+_EX_DEF = '    def export(\n        self,\n        name: str,\n'
+
+
+def _ex_stage(body):
+    return [{"file": NET, "old": _EX_OLD, "new": '        if not self._export_reactions(path, overwrite):\n            return\n'},
+            {"file": NET, "old": _EX_DEF, "new": '    def _export_reactions(self, path, overwrite) -> bool:\n        reaction_file = path / "reactions.naunet"\n' + body + '\n' + _EX_DEF}]
+
+
+_EX_GOOD = ('        if os.path.exists(reaction_file) and not overwrite:\n            logger.warning("Reaction file exists! Stop exporting!")\n            return False\n\n'
+            '        self.write(reaction_file, "naunet")\n        return True\n')
+_EX_BAD = ('        if os.path.exists(reaction_file):\n            if not overwrite:\n                logger.warning("Reaction file exists! Stop exporting!")\n                return False\n            return True\n\n'
+           '        self.write(reaction_file, "naunet")\n        return True\n')
+_CT_SPECIES_OLD = ('        chem_species = chemistry["species"]\n        chem_species["allowed"] = self._allowedspecies\n        chem_species["required"] = self._extraspecies\n'
+                   '        chem_species["binding_energy"] = self._bindingenergy\n        chem_species["photon_yield"] = self._photonyield\n')
+_CT_SPECIES_UPD = ('        chemistry["species"].update(\n            {\n                "allowed": self._allowedspecies,\n                "required": self._extraspecies,\n'
+                   '                "binding_energy": self._bindingenergy,\n                "photon_yield": self._photonyield,\n            }\n        )\n')
+_CT_DEF = '    @property\n    def content(self) -> str:\n'
+_CT_PROC = ('    def _fill_species(self, table) -> None:\n        table["allowed"] = self._allowedspecies\n        table["required"] = self._extraspecies\n'
+            '        table["binding_energy"] = self._bindingenergy\n        table["photon_yield"] = self._photonyield\n\n')
+_CT_RM_OLD = '        chemistry["rate_modifier"] = {\n            str(key): value for key, value in self._ratemodifier.items()\n        }\n'
+
+
+def _cf_local(extra):
+    return ('        surface = [s for s in network.species if s.is_surface' + extra + ']\n        binding = {s.name: s.eb for s in surface}\n        yields = {s.name: s.photon_yield for s in surface}\n')
+
+
+BENIGN += [
+    {"name": "writer-tail-by-class-layout-helper", "edits": _wr_layout("beta", "gamma")},
+    {"name": "reader-floats-by-zip-setattr", "file": RFILE, "old": _RD_FLOATS_OLD, "new": _rd_setattr('("alpha", "beta", "gamma", "temp_min", "temp_max")')},
+    {"name": "reader-names-cleaned-then-sliced", "file": RFILE, "old": _RD_OLD, "new": _rd_sliced(".strip()", "8")},
+    {"name": "write-ending-by-conditional-expression", "edits": _nw_ending(' + "\\n"')},
+    {"name": "export-reaction-stage-helper", "edits": _ex_stage(_EX_GOOD)},
+    {"name": "content-species-by-update-display", "file": CONF, "old": _CT_SPECIES_OLD, "new": _CT_SPECIES_UPD},
+    {"name": "content-species-by-procedure", "edits": [{"file": CONF, "old": _CT_SPECIES_OLD, "new": '        self._fill_species(chemistry["species"])\n'}, {"file": CONF, "old": _CT_DEF, "new": _CT_PROC + _CT_DEF}]},
+    {"name": "content-ratemodifier-zip-map", "file": CONF, "old": _CT_RM_OLD, "new": '        chemistry["rate_modifier"] = dict(zip(map(str, self._ratemodifier.keys()), self._ratemodifier.values()))\n'},
+    {"name": "config-surface-list-in-local", "file": CONF, "old": _CF_OLD, "new": _cf_local("")},
+]
+MUTANTS += [
+    {"name": "writer-class-layout-beta-gamma-swapped", "edits": _wr_layout("gamma", "beta"), "rules": ["R1"]},
+    {"name": "reader-zip-setattr-names-swapped", "file": RFILE, "old": _RD_FLOATS_OLD, "new": _rd_setattr('("alpha", "gamma", "beta", "temp_min", "temp_max")'), "rules": ["R1"]},
+    {"name": "reader-sliced-short", "file": RFILE, "old": _RD_OLD, "new": _rd_sliced(".strip()", "7"), "rules": ["R1"]},
+    {"name": "reader-sliced-no-strip", "file": RFILE, "old": _RD_OLD, "new": _rd_sliced("", "8"), "rules": ["R2"]},
+    {"name": "write-ending-without-newline", "edits": _nw_ending(""), "rules": ["R4"]},
+    {"name": "export-stage-keeps-old-file", "edits": _ex_stage(_EX_BAD), "rules": ["R6"]},
+    {"name": "content-ratemodifier-pairs-filtered", "file": CONF, "old": _CT_RM_OLD,
+     "new": '        chemistry["rate_modifier"] = dict((str(key), value) for key, value in self._ratemodifier.items() if value)\n', "rules": ["R10"]},
+    {"name": "config-surface-local-user-values-only", "file": CONF, "old": _CF_OLD, "new": _cf_local(" and s._binding_energy"), "rules": ["R6"]},
+]
